@@ -116,6 +116,10 @@ pub fn generate(prop: &PropDef, tier: &str, seed: u64, index: u64) -> RunSpec {
     if prop.id == "C18" && index % 4 == 3 {
         return crate::conc::gen_conc(prop, seed, tier);
     }
+    // C15: clear() must be atomic against a writer, readers and a flush in progress
+    if prop.id == "C15" && index % 4 == 3 {
+        return crate::conc::gen_conc(prop, seed, tier);
+    }
     // C02: a snapshot must stay stable while other threads write, flush, compact and ingest:
     // every fourth run holds snapshots under the concurrent engine and re-reads them
     if prop.id == "C02" && index % 4 == 3 {
@@ -213,6 +217,11 @@ pub fn finish_result(
     }
     for (k, v) in &stats.counters {
         joined.push_str(&format!("{k}={v};"));
+    }
+    // reach probes compiled into lsm-tree (feature verif): rare branches actually taken
+    for (k, v) in crate::sched::reach_counts() {
+        *r.counters.entry(format!("reach_{k}")).or_insert(0) += v;
+        joined.push_str(&format!("reach_{k}={v};"));
     }
     r.digest = crate::rng::hash_bytes(joined.as_bytes());
     if (prop.nontrivial)(stats) {
